@@ -8,8 +8,8 @@ NAMES="$@"; [ -z "$NAMES" ] && NAMES=$(ls benign)
 bad=0
 for n in $NAMES; do
   ids=$(cat benign/$n/checks 2>/dev/null || echo all)
-  out=$(SCRATCH=/var/tmp/stunsim-benign tools/all_on_copy.sh $TIER "$ids" benign/$n/patch.diff 2>&1); rc=$?
+  out=$(SCRATCH=${SCRATCH:-/var/tmp/stunsim-benign} tools/all_on_copy.sh $TIER "$ids" benign/$n/patch.diff 2>&1); rc=$?
   if [ $rc -eq 0 ]; then echo "$n: silent (all rc=0)"; else echo "$n: ALARM/ERROR rc=$rc"; echo "$out" | grep -v "rc=0" | sed 's/^/    /'; bad=1; fi
 done
-rm -rf /var/tmp/stunsim-benign
+rm -rf ${SCRATCH:-/var/tmp/stunsim-benign}
 exit $bad
